@@ -12,6 +12,7 @@ structure Case where
   total : Nat := 0
   chunk : Nat := 1
   probe : Bool := false    -- every wait is polled under a throw-away waker first
+  adaptFail : Bool := false
   ops : List String := []
 
 structure World where
@@ -50,6 +51,8 @@ def snapshot (c : Case) (w : World) : String :=
   s!"moved={moved} peer={w.peer} ok=1 done={if w.done then 1 else 0} armed={armed} nonblock={w.s.nonblock}"
 
 def runCase (c : Case) : List String :=
+  -- a refused registration: the call fails, the loop's bookkeeping and the fd's mode are as before
+  if c.adaptFail then [s!"case {c.name}", s!"adaptfail err=1 bookkeeping=same nonblock={if c.blocking then 0 else 1}"] else
   -- write mode within the buffer: the room is there from the start
   let room := if c.modeRead then 0 else c.total
   let w0 : World := { s := { wasNonblock := if c.blocking then 0 else 1, avail := room, sent := room } }
@@ -62,6 +65,7 @@ def runCase (c : Case) : List String :=
           if k ≥ 1 then { (act w (.peerWrite k)) with peer := w.peer + k } else w
         else { w with peer := w.peer + min k (w.s.got - w.peer) }
       | ["settle"] => settle c w 100000
+      | ["removeexec"] => if w.done then w else { (act w .dropAdapter) with done := true, running := false }
       | ["finishpeer"] =>
         -- (write direction within the buffer) the peer reads everything, the loop settles
         let w1 := settle c w 100000
@@ -73,7 +77,7 @@ def runCase (c : Case) : List String :=
 def stepLine (c : Case) (line : String) : Case × List String :=
   match words line with
   | "case" :: nm :: _ => ({ name := nm }, [])
-  | ["mode", m] => ({ c with modeRead := m == "read" }, [])
+  | ["mode", m] => ({ c with modeRead := m == "read", adaptFail := m == "adaptfail" }, [])
   | ["blocking", b] => ({ c with blocking := b == "1" }, [])
   | ["total", t, "chunk", k] => ({ c with total := t.toNat?.getD 0, chunk := max 1 (k.toNat?.getD 1) }, [])
   | ["finish", _] => (c, [])
